@@ -8,7 +8,7 @@ META = {
     "level": "proof",
     "design_ref": "DESIGN.md §6 C07",
     "text": "Kernel-checked for every input and every pair of sub-routines: whatever the parser model returns is either Undefined — and then the cursor is forced to the end of input, so every enclosing container fails too — or a tree that contains no Undefined member anywhere, and a tree is returned only when nothing but whitespace follows the value (parse_all_or_nothing). On every run, for generated valid container documents D the real code is run on every proper prefix of D, on D followed by non-whitespace suffixes and on D with closing brackets swapped or removed; each must be Undefined; results are also compared with the model.",
-    "note": "Trusted: Lean kernel; axioms ⊆ {propext, Quot.sound, Classical.choice}; correspondence harness. 'Prefix of a valid document is rejected' is decided per generated document on the real code (validation), the theorem gives the structural half (no partial trees, whole input consumed).",
+    "note": "Trusted: Lean kernel; axioms ⊆ {propext, Quot.sound, Classical.choice}; correspondence harness. 'Every proper prefix of a valid array/object document is rejected' and 'a valid document followed by a non-whitespace unit is rejected' are theorems about the model (prefix_rejected, trailing_rejected: any nesting and layout; sub-routines through the reading contracts StrSpec/NumSpec and the truncation contracts StrTrunc/NumTrunc, all four discharged for the linked UnEscape / StringToNumber models on token-sequence strings and 64-bit decimal integers: prefix_rejected_concrete, trailing_rejected_concrete). Numerals with fraction/exponent keep NumSpec/NumTrunc as hypotheses. The same statements are decided per generated document on the real code on every run.",
 }
 
 THEOREMS = [
@@ -17,6 +17,18 @@ THEOREMS = [
     "Qentem.Props.C07.parse_all_or_nothing",
     "Qentem.Props.C07.failure_forces_end_of_input",
     "Qentem.Props.C07.accepted_is_complete",
+    "Qentem.Props.C07.trailing_rejected",
+    "Qentem.Props.C07.trailing_rejected_container",
+    "Qentem.Props.C07.prefix_rejected",
+    "Qentem.Props.C07.prefix_rejected_nontoken",
+    "Qentem.Props.C07.cut_value_ends_at_end",
+    "Qentem.Props.C07.trunc_natural",
+    "Qentem.Props.C07.trunc_negative",
+    "Qentem.Props.C07.trunc_zero",
+    "Qentem.Props.C07.trunc_string_body",
+    "Qentem.Props.C07.concrete_wf_ts",
+    "Qentem.Props.C07.prefix_rejected_concrete",
+    "Qentem.Props.C07.trailing_rejected_concrete",
 ]
 
 WITNESSES = ['[{"a":1,}]', '[{]]', '{"a":{"b":1,}}', '[{"a":1]]', '[[1}]', '[1,,2]', '{"a":1,}', '[1 2]', '{"a" 1}', '[tru]', '[nul]']
